@@ -9,3 +9,6 @@ open TxVerif
 #print axioms freelist_nopages_drops
 #print axioms reopen_identity
 #print axioms runs_denote
+#print axioms absorb_keeps
+#print axioms absorb_id
+#print axioms absorb_no_collision
